@@ -25,7 +25,7 @@ VALS_ALL = ['plainv', 'shared', 'shared2', 'recv', 'reprerr', 'tagged', 'usesve'
 DOCS12 = ['plain', 'scanerr', 'parseerr', 'comperr', 'ctorerr', 'yamldir', 'tagdir', 'usetag', 'stdtag', 'anchors',
           'usealias', 'rec']
 BASE = dict(LoadOps=[], GenOps=[], DumpOps=[], Classes=['safe'], Backends=['py'], IOs=['mem'], Impls=[True], Docs=[],
-            Vals=[], MaxHist=2, MaxStream=1, MaxSingle=1, Faults=False, Mutation='none', KeepHist=True, MaxGens=1)
+            Vals=[], MaxHist=2, MaxStream=1, MaxSingle=1, Faults=False, Mutation='none', KeepHist=True, MaxGens=1, Persistent=False)
 
 
 def cfg(**kw):
@@ -59,6 +59,9 @@ HIST_CONFIGS = [
     ('dump2', cfg(DumpOps=['dump', 'serialize'], Classes=['user'], Backends=['py', 'c'], Vals=['shared2', 'tagged', 'usesve', 'uni', 'uniau'],
                   MaxHist=2), 'q'),
     ('dump2t', cfg(DumpOps=['dump', 'serialize', 'emit'], Classes=['user', 'unsafe'], Backends=['py', 'c'], Vals=V6, MaxHist=2), 't'),
+    # result-returning calls (stream=None) after FAILED multi-document dumps that had already produced output
+    ('dumpfail', cfg(DumpOps=['dump', 'dump_all', 'serialize_all'], Classes=['user'], Backends=['py', 'c'], Vals=['plainv', 'reprerr'],
+                     MaxHist=2, MaxStream=2), 'qt'),
     ('dumpio', cfg(DumpOps=ALL_DUMP, Classes=['safe'], IOs=['mem', 'file'], Backends=['py', 'c'],
                    Vals=['plainv', 'shared', 'verv'], MaxHist=2), 't'),
     ('mixed', cfg(LoadOps=['load'], GenOps=['load_all'], DumpOps=['dump'], Classes=['user'], Docs=['paths', 'usetag', 'comperr'],
@@ -107,6 +110,9 @@ MUTATION_CFGS = [
     ('th_update_only', 'H_Documents', dict(LoadOps=['load_all'], Docs=['tagdir', 'usetag'])),
     ('keep_anchor_id', 'H_Documents', dict(DumpOps=['dump_all'], Vals=['shared2'])),
     ('keep_tag_prefixes', 'H_Documents', dict(DumpOps=['emit'], Vals=['tagged', 'usesve'])),
+    ('shared_text_buffer', 'H_Globals', dict(DumpOps=['dump_all', 'dump'], IOs=['mem'], Vals=['plainv', 'reprerr'], Faults=False)),
+    ('flush_in_finally', 'H_FaultTransparency', dict(DumpOps=['dump_all'], Vals=['plainv'], MaxStream=1, Persistent=True)),
+    ('annotate_marked_error', 'H_FaultTransparency', dict(LoadOps=['load_all'], Docs=['ucall'], MaxStream=1)),
     ('dispose_raises', 'H_FaultTransparency', dict(DumpOps=['dump_all'], Vals=['shared2', 'plainv'])),
     ('wrap_write_error', 'H_FaultTransparency', dict(DumpOps=['dump_all'], Vals=['plainv'], MaxStream=1)),
 ]
